@@ -20,6 +20,7 @@ structure Inv19 (inp : RunInput) (s : Sys) : Prop where
   ex : ∀ n, cExec s n = if inp.runner = .process then 0 else cStart s n
   ord : repOrd (exOf inp) false (fun _ => false) s.events = true
   st : ∀ n, cStart s n ≥ 1 → stOf s n = .run ∨ cTerm s n ≥ 1
+  tl : truthLiteOrd inp s.events = true
 
 /-! ### list facts -/
 
@@ -63,13 +64,14 @@ theorem Inv19.same {inp : RunInput} {s s' : Sys} (h : Inv19 inp s) (e1 : s'.even
     rcases h.st n this with a | a
     · left; rw [e2]; exact a
     · right; simpa [cTerm, e1] using a
+  · rw [e1]; exact h.tl
 
 theorem Inv19.outer {inp : RunInput} {s s' : Sys} (h : Inv19 inp s) (o : SameOuter s s')
     (e2 : ∀ x, stOf s' x = stOf s x) : Inv19 inp s' :=
   h.same o.1 e2 o.2.2.2.2.2.2.1
 
 theorem init_inv19 (inp : RunInput) : Inv19 inp (init inp) := by
-  constructor <;> simp [init, finalEv, stOf, cExec, cStart, cTerm, repOrd]
+  constructor <;> simp [init, finalEv, stOf, cExec, cStart, cTerm, repOrd, truthLiteOrd]
 
 /-! ### `select_task` -/
 
@@ -115,6 +117,59 @@ theorem selDecision_status {inp : RunInput} {n : Name} {nd : Node} (h : selDecis
     · right
       apply Classical.byContradiction
       intro hn; exact h1 (Or.inl hn)
+
+theorem selDecision_utd {inp : RunInput} {n : Name} {nd : Node} (h : selDecision inp n nd = .utd) :
+    effStatus inp n = .utd ∧ inp.ignored n = false := by
+  unfold selDecision at h
+  by_cases h0 : nd.status = .none
+  · simp only [h0, if_true] at h
+    by_cases h1 : nd.ign ≠ [] ∨ inp.ignored n = true
+    · simp [h1] at h
+    · simp only [h1, if_false] at h
+      by_cases h2 : nd.bad ≠ []
+      · simp [h2] at h
+      · simp only [h2, if_false] at h
+        by_cases h3 : inp.statusOf n = .error
+        · simp [h3] at h
+        · simp only [h3, if_false] at h
+          by_cases h4 : effStatus inp n = .utd
+          · refine ⟨h4, ?_⟩
+            cases hi : inp.ignored n with
+            | false => rfl
+            | true => exact absurd (Or.inr hi) h1
+          · simp only [h4, if_false] at h
+            split at h <;> (try split at h) <;> cases h
+  · simp only [h0, if_false] at h
+    split at h <;> (try split at h) <;> (try split at h) <;> (try split at h) <;> cases h
+
+theorem selDecision_depErr {inp : RunInput} {n : Name} {nd : Node} (h : selDecision inp n nd = .depErr) :
+    inp.statusOf n = .error := by
+  unfold selDecision at h
+  by_cases h0 : nd.status = .none
+  · simp only [h0, if_true] at h
+    by_cases h1 : nd.ign ≠ [] ∨ inp.ignored n = true
+    · simp [h1] at h
+    · simp only [h1, if_false] at h
+      by_cases h2 : nd.bad ≠ []
+      · simp [h2] at h
+      · simp only [h2, if_false] at h
+        by_cases h3 : inp.statusOf n = .error
+        · exact h3
+        · simp only [h3, if_false] at h
+          split at h <;> (try split at h) <;> (try split at h) <;> cases h
+  · simp only [h0, if_false] at h
+    split at h <;> (try split at h) <;> (try split at h) <;> (try split at h) <;> cases h
+
+theorem selDecision_argsErr {inp : RunInput} {n : Name} {nd : Node} (h : selDecision inp n nd = .argsErr) :
+    inp.argsOk n = false := by
+  cases ha : inp.argsOk n with
+  | false => rfl
+  | true =>
+    exfalso
+    unfold selDecision at h
+    simp only [ha, if_true] at h
+    split at h <;> (try split at h) <;> (try split at h) <;> (try split at h) <;> (try split at h) <;>
+      (try split at h) <;> cases h
 
 /-- `select_task(n)` (any answer) keeps the reporting invariant -/
 theorem inv19_select {inp : RunInput} {s : Sys} {n : Name} {nd : Node} (h : Inv19 inp s) (h3 : Inv3 inp s)
@@ -201,6 +256,18 @@ theorem inv19_select {inp : RunInput} {s : Sys} {n : Name} {nd : Node} (h : Inv1
     · rcases h.st x (by omega) with a | a
       · left; rw [hst]; simp only [e, if_false]; exact a
       · right; rw [c.2.2.2]; omega
+  · rw [hev]
+    have T5 : truthLiteOrd inp (statusEv nd n ++ s.events) = true := by
+      unfold statusEv; split <;> simp [truthLiteOrd, truthLite, h.tl]
+    cases d with
+    | utd => obtain ⟨a, b⟩ := selDecision_utd hd; simp [selEvents, truthLiteOrd, truthLite, T5, a, b]
+    | depErr => have a := selDecision_depErr hd; simp [selEvents, truthLiteOrd, truthLite, T5, P3, a]
+    | argsErr => have a := selDecision_argsErr hd; simp [selEvents, truthLiteOrd, truthLite, T5, P3, a]
+    | skipIgn => simp [selEvents, truthLiteOrd, truthLite, T5]
+    | unmet => simp [selEvents, truthLiteOrd, truthLite, T5]
+    | runFirst => simp [selEvents, truthLiteOrd, truthLite, T5]
+    | go => simp [selEvents, truthLiteOrd, truthLite, T5]
+    | assertFail => exact absurd rfl hne
 
 /-! ### `execute_task`: the start of the actions -/
 
@@ -262,6 +329,7 @@ theorem inv19_start {inp : RunInput} {s s' : Sys} {n w : Nat} (h : Inv19 inp s) 
         simp only [cTerm, hev, List.countP_append]
         split <;> simp [List.countP_cons, Ev.isTerminalOf]
       rw [h1] at hx; rw [hst, h2]; exact h.st x hx
+  · rw [hev]; split <;> simp [truthLiteOrd, truthLite, h.tl]
 
 /-- the actions of `n` end -/
 theorem inv19_fin {inp : RunInput} {s s' : Sys} {n w : Nat} (h : Inv19 inp s) (hrun : stOf s n = .run)
@@ -290,6 +358,7 @@ theorem inv19_fin {inp : RunInput} {s s' : Sys} {n w : Nat} (h : Inv19 inp s) (h
     have h1 : cStart s' x = cStart s x := by simp [cStart, hev, List.countP_cons, Ev.isStartOf]
     have h2 : cTerm s' x = cTerm s x := by simp [cTerm, hev, List.countP_cons, Ev.isTerminalOf]
     rw [h1] at hx; rw [hst, h2]; exact h.st x hx
+  · rw [hev]; simp [truthLiteOrd, truthLite, h.tl]
 
 /-! ### `process_task_result` -/
 
@@ -362,6 +431,10 @@ theorem inv19_result {inp : RunInput} {s : Sys} {n : Name} {nd : Node} (h : Inv1
       rcases h.st x (by omega) with a | a
       · left; rw [hst]; simp only [e, if_false]; exact a
       · right; rw [c.2.2.2]; omega
+  · rw [hev]
+    have P3' : s.events.any (Ev.isStartOf n) = true :=
+      any_true_of_countP (show s.events.countP (Ev.isStartOf n) ≥ 1 from hstart)
+    cases ho : inp.outcome n <;> simp [resEvents, truthLiteOrd, truthLite, h.tl, P3', ho]
 
 /-! ### `Runner.finish` -/
 
@@ -369,6 +442,12 @@ theorem finalEv_teardown (l : List Name) (evs : List Ev) : finalEv (l.map Ev.tea
   induction l with
   | nil => rfl
   | cons a l ih => simpa [finalEv] using ih
+
+theorem truthLiteOrd_teardown (inp : RunInput) (l : List Name) (evs : List Ev) (h : truthLiteOrd inp evs = true) :
+    truthLiteOrd inp (l.map Ev.teardown ++ evs) = true := by
+  induction l with
+  | nil => exact h
+  | cons x l ih => simpa [truthLiteOrd, truthLite] using ih
 
 theorem repOrd_teardown (a b : Bool) (f : Name → Bool) (l : List Name) (evs : List Ev) (h : repOrd a b f evs = true) :
     repOrd a b f (l.map Ev.teardown ++ evs) = true := by
@@ -413,5 +492,7 @@ theorem inv19_finishRun {inp : RunInput} {s : Sys} (h : Inv19 inp s) : Inv19 inp
     rw [hcnt _ (by rfl) (by intro t; rfl)] at hx
     rw [hcnt _ (by rfl) (by intro t; rfl)]
     exact h.st x hx
+  · rw [hev]; simp only [truthLiteOrd, truthLite, Bool.true_and]
+    exact truthLiteOrd_teardown _ _ _ h.tl
 
 end DoitModel.Report
